@@ -197,6 +197,103 @@ def rename_private(root):
     return _rewrite_all(root, tr)
 
 
+def reorder_methods(root):
+    """Behaviour-preserving rewrite: undecorated methods of every class are moved behind the rest of the class body,
+    in reverse order (decorated ones - properties, setters, classmethods, handlers - keep their place)."""
+    import ast
+
+    def tr(tree):
+        k = 0
+        for node in ast.walk(tree):
+            if isinstance(node, ast.ClassDef):
+                plain = [st for st in node.body if isinstance(st, (ast.FunctionDef, ast.AsyncFunctionDef)) and not st.decorator_list]
+                if len(plain) > 1:
+                    rest = [st for st in node.body if st not in plain]
+                    node.body = rest + list(reversed(plain))
+                    k += 1
+        return k
+
+    return _rewrite_all(root, tr)
+
+
+def add_logging(root):
+    """Behaviour-preserving rewrite: a debug log line naming the function is inserted at the top of every function
+    and method (module gets 'import logging' and a logger when it has none)."""
+    import ast
+
+    def tr(tree):
+        k = 0
+        for node in ast.walk(tree):
+            if isinstance(node, (ast.FunctionDef, ast.AsyncFunctionDef)):
+                call = ast.parse(f"logging.getLogger(__name__).debug('enter %s', {node.name!r})").body[0]
+                pos = 1 if node.body and isinstance(node.body[0], ast.Expr) and isinstance(getattr(node.body[0], 'value', None), ast.Constant) and isinstance(node.body[0].value.value, str) else 0
+                node.body.insert(pos, call)
+                k += 1
+        if k:
+            pos = 0
+            for i, st in enumerate(tree.body):
+                if isinstance(st, ast.ImportFrom) and st.module == "__future__" or (i == 0 and isinstance(st, ast.Expr) and isinstance(getattr(st, "value", None), ast.Constant)):
+                    pos = i + 1
+            tree.body.insert(pos, ast.parse("import logging").body[0])
+        return k
+
+    return _rewrite_all(root, tr)
+
+
+def swap_eq(root):
+    """Behaviour-preserving rewrite: 'a == b' -> 'b == a', 'a != b' -> 'b != a' (single comparisons; equality in this
+    package is symmetric)."""
+    import ast
+
+    def tr(tree):
+        k = 0
+        for node in ast.walk(tree):
+            if isinstance(node, ast.Compare) and len(node.ops) == 1 and isinstance(node.ops[0], (ast.Eq, ast.NotEq)):
+                node.left, node.comparators[0] = node.comparators[0], node.left
+                k += 1
+        return k
+
+    return _rewrite_all(root, tr)
+
+
+def comp_to_loop(root):
+    """Behaviour-preserving rewrite: 'x = [elt for t in it if c]' -> 'x = []' + explicit for/if/append."""
+    import ast
+
+    def conv(st):
+        if not (isinstance(st, ast.Assign) and len(st.targets) == 1 and isinstance(st.targets[0], ast.Name) and isinstance(st.value, ast.ListComp) and len(st.value.generators) == 1 and not st.value.generators[0].is_async):
+            return None
+        g = st.value.generators[0]
+        name = st.targets[0].id
+        # the comprehension has its own scope: skip when its variables collide with the target
+        if any(isinstance(n, ast.Name) and n.id == name for n in ast.walk(st.value)):
+            return None
+        app = ast.Expr(ast.Call(ast.Attribute(ast.Name(name, ast.Load()), "append", ast.Load()), [st.value.elt], []))
+        body = [app]
+        for c in reversed(g.ifs):
+            body = [ast.If(c, body, [])]
+        return [ast.Assign([ast.Name(name, ast.Store())], ast.List([], ast.Load())), ast.For(g.target, g.iter, body, [])]
+
+    def tr(tree):
+        k = 0
+        for node in ast.walk(tree):
+            for field in ("body", "orelse", "finalbody"):
+                blk = getattr(node, field, None)
+                if isinstance(blk, list) and blk and isinstance(blk[0], ast.stmt):
+                    out = []
+                    for st in blk:
+                        r = conv(st)
+                        if r:
+                            out.extend(r)
+                            k += 1
+                        else:
+                            out.append(st)
+                    setattr(node, field, out)
+        return k
+
+    return _rewrite_all(root, tr)
+
+
 def run_one(entry, evidence_dir):
     mid, kind, props, rule, file, old, new = entry
     d = tempfile.mkdtemp(prefix="indilint-selftest-")
@@ -213,6 +310,14 @@ def run_one(entry, evidence_dir):
             res["loops"] = values_for_items(d)
         elif file == "*rename-private*":
             res["names"] = rename_private(d)
+        elif file == "*reorder-methods*":
+            res["classes"] = reorder_methods(d)
+        elif file == "*add-logging*":
+            res["functions"] = add_logging(d)
+        elif file == "*swap-eq*":
+            res["comparisons"] = swap_eq(d)
+        elif file == "*comp-to-loop*":
+            res["comprehensions"] = comp_to_loop(d)
         else:
             path = os.path.join(d, file)
             src = open(path, encoding="utf-8").read()
@@ -232,11 +337,12 @@ def run_one(entry, evidence_dir):
         for prop in props:
             env = dict(os.environ)
             env["INDILINT_REPO"] = d
-            env["INDILINT_EVIDENCE_DIR"] = evidence_dir
+            env["INDILINT_EVIDENCE_DIR"] = os.path.join(evidence_dir, mid)  # one directory per variant: concurrent runs of one property must not share files
+            os.makedirs(env["INDILINT_EVIDENCE_DIR"], exist_ok=True)
             env["INDILINT_NO_SELFTEST"] = "1"
             pr = subprocess.run(["/venv/bin/python", "-m", "indilint.cli", prop, "--repo", d], cwd=VERIF, env=env, capture_output=True, text=True, timeout=600)
             viol = [l.strip() for l in pr.stdout.splitlines() if l.strip().startswith("VIOLATED")]
-            outs[prop] = {"rc": pr.returncode, "violated_rules": sorted({l.split()[2] for l in viol if len(l.split()) > 2}), "first": viol[0][:200] if viol else None}
+            outs[prop] = {"rc": pr.returncode, "stderr_tail": pr.stderr[-300:] if pr.returncode not in (0, 1) or not viol and pr.returncode == 1 else "", "violated_rules": sorted({l.split()[2] for l in viol if len(l.split()) > 2}), "first": viol[0][:200] if viol else None}
         res["runs"] = outs
         if kind == "break":
             o = outs[props[0]]
@@ -262,6 +368,10 @@ def run_for_property(prop: str, jobs: int = 16):
     entries.append((f"{prop}-invert-ifs", "preserve", [prop], None, "*invert-ifs*", "", ""))
     entries.append((f"{prop}-values-for-items", "preserve", [prop], None, "*values-for-items*", "", ""))
     entries.append((f"{prop}-rename-private", "preserve", [prop], None, "*rename-private*", "", ""))
+    entries.append((f"{prop}-reorder-methods", "preserve", [prop], None, "*reorder-methods*", "", ""))
+    entries.append((f"{prop}-add-logging", "preserve", [prop], None, "*add-logging*", "", ""))
+    entries.append((f"{prop}-swap-eq", "preserve", [prop], None, "*swap-eq*", "", ""))
+    entries.append((f"{prop}-comp-to-loop", "preserve", [prop], None, "*comp-to-loop*", "", ""))
     t0 = time.time()
     evdir = tempfile.mkdtemp(prefix="indilint-selftest-ev-")
     try:
@@ -289,6 +399,10 @@ def main(argv=None):
     entries.append(("all-invert-ifs", "preserve", allprops, None, "*invert-ifs*", "", ""))
     entries.append(("all-values-for-items", "preserve", allprops, None, "*values-for-items*", "", ""))
     entries.append(("all-rename-private", "preserve", allprops, None, "*rename-private*", "", ""))
+    entries.append(("all-reorder-methods", "preserve", allprops, None, "*reorder-methods*", "", ""))
+    entries.append(("all-add-logging", "preserve", allprops, None, "*add-logging*", "", ""))
+    entries.append(("all-swap-eq", "preserve", allprops, None, "*swap-eq*", "", ""))
+    entries.append(("all-comp-to-loop", "preserve", allprops, None, "*comp-to-loop*", "", ""))
     if sel:
         entries = [e for e in entries if set(e[2]) & sel]
         entries = [(e[0], e[1], [p for p in e[2] if p in sel] if e[1] == "preserve" else e[2], e[3], e[4], e[5], e[6]) for e in entries]
